@@ -14,6 +14,18 @@ package main
 //              under recover(); texts that still are valid shallow JSON are
 //              turned into dec/parse cases with their value, the others only
 //              record panic / accepted.
+//   seq        a short history of RELATED inputs run one after the other inside
+//              one case (hence one process): a base value or text and variants
+//              of it that differ in one field, repeat it, or carry the same
+//              payload under another message type; every step is a dec / parse /
+//              enc case of its own.  The codec is a pure function of its input,
+//              so model and oracle judge every step by itself: an observation
+//              that depends on what was encoded or decoded before shows up as a
+//              failing step.  Ids, public keys and signatures of events are
+//              drawn freshly per case (64/128 lower-case hex digits), so
+//              process-wide state keyed by them cannot leak from one case of a
+//              generation run into another, and -replay runs every case of a
+//              multi-case file in a process of its own.
 
 import (
 	"bytes"
@@ -39,6 +51,8 @@ type c10Case struct {
 	Acc  bool   `json:"acc,omitempty"`
 	Pan  bool   `json:"pan,omitempty"`
 	Len  int    `json:"len,omitempty"`
+
+	Steps []c10Case `json:"steps,omitempty"` // seq
 }
 
 const c10MaxDepth = 40
@@ -146,6 +160,34 @@ var c10Fracs = []string{"1.5", "1.0", "1e3", "1E+2", "-0.0", "0e0", "2.5e-3", "1
 
 func c10Str(r *common.Rand) string { return common.Pick(r, c10Strs) }
 
+// c10Hex: n lower-case hex digits drawn from r (fresh per case: cases never share them)
+func c10Hex(r *common.Rand, n int) string {
+	b := make([]byte, n)
+	for i := range b {
+		b[i] = "0123456789abcdef"[r.Intn(16)]
+	}
+	return string(b)
+}
+
+// c10EvStrs: id, pubkey, sig of a generated event: 40% of the events carry
+// protocol-shaped ones (64/64/128 hex digits, each kept with 90%), the others
+// strings of the small universe
+func c10EvStrs(r *common.Rand) (id, pk, sig string) {
+	id, pk, sig = c10Str(r), c10Str(r), c10Str(r)
+	if r.Chance(40) {
+		if r.Chance(90) {
+			id = c10Hex(r, 64)
+		}
+		if r.Chance(90) {
+			pk = c10Hex(r, 64)
+		}
+		if r.Chance(90) {
+			sig = c10Hex(r, 128)
+		}
+	}
+	return
+}
+
 func c10Num(r *common.Rand) JV {
 	switch k := r.Intn(100); {
 	case k < 84:
@@ -203,10 +245,11 @@ func c10EventJV(r *common.Rand) JV {
 	for i := 0; i < nt; i++ {
 		tags = append(tags, c10StrArr(r, 3))
 	}
+	id, pk, sig := c10EvStrs(r)
 	return jObj(
-		JMember{"id", jStr(c10Str(r))}, JMember{"pubkey", jStr(c10Str(r))},
+		JMember{"id", jStr(id)}, JMember{"pubkey", jStr(pk)},
 		JMember{"created_at", c10Num(r)}, JMember{"kind", c10Num(r)},
-		JMember{"tags", JV{T: 'a', A: tags}}, JMember{"content", jStr(c10Str(r))}, JMember{"sig", jStr(c10Str(r))})
+		JMember{"tags", JV{T: 'a', A: tags}}, JMember{"content", jStr(c10Str(r))}, JMember{"sig", jStr(sig)})
 }
 
 var c10TagKeys = []string{"#e", "#p", "#a", "#t", "#Z", "#e", "#d", "#ee", "#1", "#é", "#", "e", "#_"}
@@ -461,8 +504,9 @@ func c10GenText(r *common.Rand) c10Case {
 // ---- values for the Marshal -> Unmarshal stream ------------------------------
 
 func c10XEvent(r *common.Rand, wf bool) *XEvent {
-	e := &XEvent{ID: HStr(c10Str(r)), PK: HStr(c10Str(r)), TS: common.Pick(r, c10Ints), Kind: common.Pick(r, c10Ints),
-		Content: HStr(c10Str(r)), Sig: HStr(c10Str(r))}
+	id, pk, sig := c10EvStrs(r)
+	e := &XEvent{ID: HStr(id), PK: HStr(pk), TS: common.Pick(r, c10Ints), Kind: common.Pick(r, c10Ints),
+		Content: HStr(c10Str(r)), Sig: HStr(sig)}
 	if r.Chance(10) {
 		e.TS = common.Pick(r, []int64{9223372036854775807, -9223372036854775808})
 	}
@@ -576,6 +620,11 @@ func c10GenValue(r *common.Rand) c10Case {
 	if !wf {
 		cls = "value:other"
 	}
+	return c10Enc(cls, c10XValOf(r, t, wf))
+}
+
+// c10XValOf: a Go value of the type named t (wf: a well-formed one)
+func c10XValOf(r *common.Rand, t string, wf bool) XVal {
 	v := XVal{T: t}
 	filters := func() []*XFilter {
 		n := 1 + r.Intn(3)
@@ -631,7 +680,7 @@ func c10GenValue(r *common.Rand) c10Case {
 		p, m := c10Reason(r, wf)
 		v.Pfx, v.Msg = HStr(p), HStr(m)
 	}
-	return c10Enc(cls, v)
+	return v
 }
 
 // ---- malformed stream --------------------------------------------------------
@@ -734,7 +783,20 @@ func c10GenRaw(r *common.Rand) c10Case {
 			text, ty = `["OK","x",`+big+`,""]`, "sok"
 		}
 		return c10Text("raw:bignum", ty, []byte(text))
-	default: // invalid UTF-8 inside strings
+	case k < 96: // invalid UTF-8 at any string position (values and member names) of a message of any type
+		t := common.Pick(r, allTypes)
+		j := c10ShapeJV(t, r)
+		var text []byte
+		for try := 0; try < 6; try++ {
+			ps := &printStyle{r: r, ws: []int{0, 10}[r.Intn(2)], esc: []int{0, 0, 5, 30}[r.Intn(4)],
+				bad: []int{15, 35, 70}[r.Intn(3)], noLabel: r.Chance(85)}
+			text = ps.print(j)
+			if ps.injected > 0 {
+				break
+			}
+		}
+		return c10Text("raw:utf8-any", target(t), text)
+	default: // invalid UTF-8 inside strings, fixed texts
 		bad := common.Pick(r, []string{"\xff", "\xc3", "\xe2\x82", "\xed\xa0\x80", "\xf4\x90\x80\x80", "\xc0\xaf", "a\x80b"})
 		var text, ty string
 		switch r.Intn(5) {
@@ -749,7 +811,7 @@ func c10GenRaw(r *common.Rand) c10Case {
 		default:
 			text, ty = `["REQ","s",{"#`+bad+`":[]}]`, common.Pick(r, []string{"parse", "creq"})
 		}
-		return c10Text("raw:utf8", ty, []byte(text))
+		return c10Text("raw:utf8-fixed", ty, []byte(text))
 	}
 }
 
